@@ -401,8 +401,9 @@ def interleaved_loops(out):
     loop is NOT closed), B makes its first call, A is run again.  A keeps ITS batcher: what it remembered
     (retention) is still remembered, what was in flight still arrives, its concurrency limit still counts."""
     from aiuti.asyncio import async_background_batcher
-    for ret, inflight in ((640, False), (640, True), (0, True)):
-        case = {'part': 'interleaved-loops', 'ret': ret, 'inflight': inflight}
+    for ret, inflight, idle in ((640, False, 0), (640, True, 0), (0, True, 0), (640, False, 700), (96, False, 5000)):
+        # idle > 0: loop A is not run for that many ticks (longer than the retention window) before it is used again
+        case = {'part': 'interleaved-loops', 'ret': ret, 'inflight': inflight, 'idle': idle}
         mark(case)
         out.evaluations += 1
         log = []
@@ -440,6 +441,8 @@ def interleaved_loops(out):
             asyncio.set_event_loop(Bl)
             Bl.run_until_complete(b1())
             asyncio.set_event_loop(A)
+            if idle:
+                A.block(idle * TICK)
             try:
                 A.run_until_complete(a2())
             except BaseException as e:  # noqa
@@ -455,10 +458,14 @@ def interleaved_loops(out):
         nA1 = sum(1 for l in log if l[0] == 'A' and l[2] == ['1'])
         if 'a2-error' in res:
             bad.append(f"the second run of loop A failed with {res['a2-error']}")
-        if ret > 0 and nA1 != 1:
+        if ret > 0 and not idle and nA1 != 1:
             bad.append(f'key 1 was computed {nA1} times on loop A inside its retention window (batches: {log})')
-        if ret > 0 and res.get('a2') != res.get('a1'):
+        if ret > 0 and not idle and res.get('a2') != res.get('a1'):
             bad.append(f"loop A's repeated call got {res.get('a2')}, the remembered outcome is {res.get('a1')}")
+        if idle > ret > 0 and (nA1 != 2 or res.get('a2') == res.get('a1')):
+            bad.append(f'loop A was idle for {idle} ticks, longer than retention_timeout = {ret} ticks, yet its next call '
+                       f'for key 1 got {res.get("a2")} (first call: {res.get("a1")}; computations of key 1 on A: {nA1}): '
+                       f'a call after the window must be computed afresh')
         if ret == 0 and nA1 != 2:
             bad.append(f'with retention_timeout=0 key 1 must be computed afresh on loop A: {nA1} computations')
         if inflight and (res.get('a_inflight') or ('?',))[0] != 'A':
